@@ -24,7 +24,7 @@
 (*                       10 ms)), srtt the recorded one, rttvar the        *)
 (*                       specification's (the variance is not observable)  *)
 (*   C16.Doubling        on a timeout rto = min(2 * previous recorded rto, *)
-(*                       60 s) and the smoothed RTT is untouched; on the   *)
+(*                       60 s) and the recorded srtt does not move; on the *)
 (*                       first sample after timeouts rto is the            *)
 (*                       sample-derived value again                        *)
 (*   C16.SrttBetween     smallest sample <= recorded srtt <= largest       *)
@@ -46,9 +46,10 @@ VARIABLES
     l,      \* next line
     run,    \* number of the current sequence (reset lines)
     prev,   \* the recorded rto of the preceding line of this sequence
+    prevRtt, \* the recorded srtt of the preceding line of this sequence
     viol, cov
 
-tvars == <<st, l, run, prev, viol, cov>>
+tvars == <<st, l, run, prev, prevRtt, viol, cov>>
 
 RuleNames == {
     "C16.RtoBounds", "C16.RtoFormula", "C16.Doubling", "C16.SrttBetween", "C16.ExactAgreement",
@@ -66,7 +67,7 @@ RuleNames == {
 
 TraceInit ==
     /\ st = StInit(TraceInitialRto)
-    /\ l = 1 /\ run = 0 /\ prev = TraceInitialRto
+    /\ l = 1 /\ run = 0 /\ prev = TraceInitialRto /\ prevRtt = Zero
     /\ viol = {} /\ cov = [r \in RuleNames |-> 0]
 
 (* rs: set of <<rule name, applicable, holds>> *)
@@ -83,7 +84,7 @@ Unclamped(d) == DLt(MinRto, d) /\ DLt(d, MaxRto)
 Reset(r) ==
     /\ st' = StInit(r.rto)
     /\ run' = run + 1
-    /\ prev' = r.rto
+    /\ prev' = r.rto /\ prevRtt' = r.rtt
     /\ Judge({ <<"C16.RtoBounds", TRUE, P_RtoBounds(r.rto)>>,
                <<"C16.RtoBounds.initial", TRUE, TRUE>> }, "fresh")
 
@@ -93,7 +94,7 @@ SampleLine(r) ==
         raw == DAdd(s1.srtt, DMax(v4, Granularity))
     IN  /\ st' = s1
         /\ UNCHANGED run
-        /\ prev' = r.rto
+        /\ prev' = r.rto /\ prevRtt' = r.rtt
         /\ Judge({
              <<"C16.RtoBounds", TRUE, P_RtoBounds(r.rto)>>,
              <<"C16.RtoFormula", TRUE, P_RtoFormula(r.rto, r.rtt, s1.rttvar)>>,
@@ -113,10 +114,10 @@ TimeoutLine(r) ==
         sub == st.phase = "subsequent"
     IN  /\ st' = s1
         /\ UNCHANGED run
-        /\ prev' = r.rto
+        /\ prev' = r.rto /\ prevRtt' = r.rtt
         /\ Judge({
              <<"C16.RtoBounds", TRUE, P_RtoBounds(r.rto)>>,
-             <<"C16.Doubling", TRUE, P_Doubling(prev, r.rto) /\ (sub => r.rtt = st.srtt)>>,
+             <<"C16.Doubling", TRUE, P_Doubling(prev, r.rto) /\ (sub => r.rtt = prevRtt)>>,
              <<"C16.SrttBetween", sub, P_SrttBetween(r.rtt, st.lo, st.hi)>>,
              <<"C16.ExactAgreement", TRUE, r.rto = s1.rto /\ (sub => r.rtt = s1.srtt)>>,
              <<"C16.RtoBounds.initial", ~sub, TRUE>>,
@@ -126,7 +127,7 @@ TimeoutLine(r) ==
              "timeout")
 
 PanicLine(r) ==
-    /\ UNCHANGED <<st, run, prev>>
+    /\ UNCHANGED <<st, run, prev, prevRtt>>
     /\ Judge({ <<"C16.ExactAgreement", TRUE, FALSE>> }, "panic")
 
 TraceNext ==
